@@ -82,6 +82,9 @@ def usable(obj, m, x, c):
 
 
 def check_bijection(case, ctx):
+    # no boundary-directed picks here: exactly ON a derivative kink (spline interval end) one ulp of XLA-fusion
+    # rounding legitimately puts jit and eager on different sides (either one-sided log-det is acceptable, cf. C02)
+    case = dict(case, inp=dict(case["inp"], xpick=[-1] * len(case["inp"]["xpick"])))
     s = bc.prepare(case)
     obj, x, cj = s.obj, jnp.asarray(s.x), s.cj
     who = f"{s.kind}|{s.name}"
